@@ -79,6 +79,7 @@ func runC19(c *Ctx) {
 	c17Sibling(c, p, "C19.S") // includes the key rules; the caching store hands its own parameters (context included) to the store it wraps
 	c.Rule("C19.R", "GET response cache: one injective key of (user, URL) for lookup and store", 6)
 	ruleAppResponseCacheKey(c, p, "C19.R")
+	ruleAppForwardResponseKeepsAllValues(c, p, "C19.R")
 	c.Rule("C19.H", "no call hangs: channel capacities, WaitGroup pairing, bounded wait loops", 7)
 	c.Rule("C19.W", "results of concurrent store writes: one writer per captured result variable; wait windows are not shortened by an inherited deadline", 2)
 	ruleOneWriterPerCapturedResult(c, p, "C19.W", "app", "app/store", "app/cache")
@@ -432,6 +433,7 @@ func runC19(c *Ctx) {
 		}
 	}
 	ruleBlobParts(c, p, "C19.K")
+	ruleBlobReadFailsOnlyOnStoreErrors(c, p, "C19.K")
 	ruleStoredEntityLoadable(c, p, "C19.K", "app/store.storedRequest", "app/store.storedResponse", "app/store.blob", "app/store.blobPart")
 	if f := c.need(p, "C19.K", "app/store.newBlob"); f != nil {
 		okN := false
@@ -904,10 +906,100 @@ func ruleCacheHoldsWhatIsStored(c *Ctx, p *Prog, rule string) {
 			if mi, isMI := v.(*ssa.MakeInterface); isMI {
 				v = mi.X
 			}
+			// the item is built by a helper shared with the sibling method: the object is what
+			// this method hands to it
+			if hp, isP := v.(*ssa.Parameter); isP && hp.Parent() != f {
+				h := hp.Parent()
+				var at ssa.Value
+				EachInstrRaw(f, func(j ssa.Instruction) {
+					if cc := CallOf(j); cc != nil && StaticFunc(cc) == h {
+						for k, x := range h.Params {
+							if x == hp && k < len(cc.Args) {
+								at = cc.Args[k]
+							}
+						}
+					}
+				})
+				if at != nil {
+					v = at
+					if mi, isMI := v.(*ssa.MakeInterface); isMI {
+						v = mi.X
+					}
+				}
+			}
 			if prm == nil || !SameValue(v, prm) {
 				bad = PathOf(v) + " at " + p.Pos(al.Pos())
 			}
 		})
 		c.Check(rule, "cachingStore."+m+":caches-the-value-it-stores", p, f.Pos(), bad == "" && n >= 1, fmt.Sprintf("%d memcache item(s): the cached object is the method's own parameter", n), "cachingStore."+m+" caches "+bad+" instead of the value it writes through: reads prefer the cache, so a later read of that ID returns the derived copy (without the contents, say) — the bytes an agent or client gets are not the ones that were stored")
 	}
+}
+
+// ruleBlobReadFailsOnlyOnStoreErrors: (*blob).read rejects nothing that writeBlobParts can
+// have written: every non-nil error it returns is the error of a datastore call. A validation
+// of the parts ("no part may be empty") refuses contents whose length is an exact multiple of
+// the part size — the writer always adds a last, then empty, part.
+func ruleBlobReadFailsOnlyOnStoreErrors(c *Ctx, p *Prog, rule string) {
+	f := c.need(p, rule, "app/store.(*blob).read")
+	if f == nil {
+		return
+	}
+	bad := ""
+	n := 0
+	for _, r := range Returns(f) {
+		ev := ReturnValue(r, len(r.Results)-1)
+		if IsNilConst(ev) {
+			continue
+		}
+		n++
+		for _, root := range Roots(ev) {
+			if IsNilConst(root) {
+				continue
+			}
+			ok := false
+			if call, isC := root.(*ssa.Call); isC && strings.HasPrefix(CalleeName(call.Common()), "google.golang.org/appengine/v2/datastore.") {
+				ok = true
+			}
+			if ex, isE := root.(*ssa.Extract); isE {
+				if call, isC := ex.Tuple.(*ssa.Call); isC && strings.HasPrefix(CalleeName(call.Common()), "google.golang.org/appengine/v2/datastore.") {
+					ok = true
+				}
+			}
+			if !ok {
+				bad = "the error returned at " + p.Pos(r.Pos()) + " (" + PathOf(root) + ") is of read's own making"
+			}
+		}
+	}
+	c.Check(rule, "blob:read-fails-only-on-store-errors", p, f.Pos(), bad == "", fmt.Sprintf("%d error return(s) of (*blob).read, each the error of a datastore call", n), bad+": contents that writeBlobParts stored legally (an empty last part when the length is a multiple of the part size) can no longer be read back — the stored request or response is lost although every write succeeded")
+}
+
+// ruleAppForwardResponseKeepsAllValues: the App Engine proxy relays every value of a repeated
+// response field as its own field line: no Header.Set with a copied key (one value survives,
+// or the values are folded into one line, which breaks Set-Cookie).
+func ruleAppForwardResponseKeepsAllValues(c *Ctx, p *Prog, rule string) {
+	f := c.need(p, rule, "app.forwardResponse")
+	if f == nil {
+		return
+	}
+	bad := ""
+	n := 0
+	EachInstr(f, func(i ssa.Instruction) {
+		switch x := i.(type) {
+		case *ssa.MapUpdate:
+			if NamedType(x.Map.Type()) == "net/http.Header" {
+				n++
+			}
+		case *ssa.Call:
+			switch CalleeName(x.Common()) {
+			case "(net/http.Header).Add":
+				n++
+			case "(net/http.Header).Set":
+				if _, isC := ConstString(PArgs(&x.Call)[1]); !isC {
+					n++
+					bad = "Header.Set with a copied field name at " + p.Pos(x.Pos())
+				}
+			}
+		}
+	})
+	c.Check(rule, "forward:every-value-of-a-repeated-field-is-relayed", p, f.Pos(), bad == "" && n >= 1, fmt.Sprintf("%d header copy site(s) in forwardResponse: whole value lists or Add, never Set", n), "forwardResponse copies response fields with "+bad+": repeated fields lose values or are folded into one line — two Set-Cookie fields reach the client as one cookie it cannot parse")
 }
